@@ -15,6 +15,7 @@ import (
 	"path/filepath"
 	"runtime"
 	"sort"
+	"strings"
 	"sync"
 	"time"
 
@@ -561,7 +562,8 @@ func (inc *incarnation) visible(kind, key string) effect {
 			if inc.staleTrig {
 				// a timeout for which the state machine emitted no log record (it considered it
 				// stale) but whose handling still produced a visible action
-				e.Kind = "unlogged-stale-timeout-triggers:" + e.Kind
+				// (a commit whose listener then fails is the same effect of the state machine)
+				e.Kind = "unlogged-stale-timeout-triggers:" + strings.TrimSuffix(e.Kind, "-failed")
 			}
 			inc.unlogged = append(inc.unlogged, e)
 		}
